@@ -56,6 +56,7 @@ static std::string eval(const std::vector<std::string> &t) {
   for (unsigned i = 0; i < N; ++i) cfg.insert("b" + std::to_string(i));
   std::vector<std::vector<std::pair<unsigned, unsigned>>> rel(N);
   uint64_t init = 0;
+  bool prior_run = false; uint64_t prior_init = 0;
   base_t::assumption_map_t asm_map;
   for (size_t i = 1; i < sec.size(); ++i) {
     auto &s = sec[i];
@@ -68,6 +69,10 @@ static std::string eval(const std::vector<std::string> &t) {
       for (unsigned j = 0; j < k; ++j) rel[b].push_back({(unsigned)std::stoul(s[3 + 2 * j]), (unsigned)std::stoul(s[4 + 2 * j])});
     } else if (s[0] == "I") {
       for (size_t j = 1; j < s.size(); ++j) init |= (1ULL << std::stoul(s[j]));
+    } else if (s[0] == "P") {
+      // an earlier run on the same engine object (from the CFG entry, these initial states)
+      prior_run = true;
+      for (size_t j = 1; j < s.size(); ++j) prior_init |= (1ULL << std::stoul(s[j]));
     } else if (s[0] == "A") {
       unsigned b = std::stoul(s[1]), k = std::stoul(s[2]); uint64_t a = 0;
       for (unsigned j = 0; j < k; ++j) a |= (1ULL << std::stoul(s[3 + j]));
@@ -80,6 +85,7 @@ static std::string eval(const std::vector<std::string> &t) {
   params.get_max_thresholds() = 0;
   z_cfg_ref_t ref(cfg);
   FS it(ref, SetVal(0), params, rel);
+  if (prior_run) it.run(SetVal(prior_init));
   bool use_run1 = sec[0].size() > 6 && sec[0][6] == "plain";
   if (use_run1) it.run(SetVal(init));
   else it.run("b" + std::to_string(entry), SetVal(init), asm_map);
